@@ -338,7 +338,7 @@ def autodiscover_units():
 
     def inner_inv(lc):
         b = cur["bus"]
-        a = lc.env.locals["addr_int"]
+        a = lc.env.locals[lc.loop_target(0)]        # the device being scanned: target of the outer for-loop
         done = Or(b.A < a, And(b.A == a, b.I < lc.k))
         return inv_holds(done)
 
